@@ -173,6 +173,9 @@ def r4_mutation_target_is_the_lexical_variable(ctx):
     # ... and of the *current* activation: scope-stack searches go innermost scope first, newest entry first (C04-R2); under
     # recursion an outermost-first search mutates the array of an older activation's variable of the same name/id
     r2_innermost_first(ctx)
+    # ... at the subscripts written: the routines that walk an index path to a mutable place agree on its direction (C15-R7)
+    from .c15 import r7_index_paths_walk_the_same_way
+    r7_index_paths_walk_the_same_way(ctx)
 
 
 def r5_storing_copies_every_item(ctx):
